@@ -387,6 +387,18 @@ def checkGroup (g : String) (finished : Bool) : GV :=
     | _, _, _ => .diff ("unparsable group header: " ++ hdr)
   | _ => .diff "unparsable group"
 
+/-- non-cyclical subscriptions whose producer and consumer are members of one cycle group (from the diagnostic `E` part) -/
+def intraGroupStandardEdges (parts : List String) : List String :=
+  let groups := (parts.filter (·.startsWith "G ")).map fun g =>
+    ((field (fields ((g.splitOn " : ").headD "")) "labels").getD "").splitOn ","
+  let edges := match parts.find? (·.startsWith "E ") with
+    | some e => fields ((e.drop 2).toString)
+    | none => []
+  edges.filter fun e =>
+    !e.endsWith "*" && match e.splitOn ">" with
+      | [a, b] => groups.any fun ls => ls.length > 1 && ls.contains a && ls.contains b
+      | _ => false
+
 def checkPipe (cf : List String) (impl : String) : String :=
   match cf with
   | shape :: _k :: _e :: _s :: objType :: relation :: _chunk :: _procs :: _buf :: user :: tuples =>
@@ -411,7 +423,10 @@ def checkPipe (cf : List String) (impl : String) : String :=
         let stuck := groups.filterMap fun g => match checkGroup g true with
           | .viol m => some m
           | _ => none
-        specViol s!"pipe: the pipeline did not terminate (teardown incomplete); {stuck}"
+        let intra := intraGroupStandardEdges parts
+        if !intra.isEmpty then
+          specViol s!"pipe: the pipeline did not terminate (teardown incomplete): non-cyclical edge(s) {intra} connect two members of one cycle group, so the consumer waits for a standard sender that its own group only closes at teardown; {stuck}"
+        else specViol s!"pipe: the pipeline did not terminate (teardown incomplete); {stuck}"
       else if status.startsWith "HELPER" || status == "PANIC" then modelDiff s!"helper failure: {impl.take 300}"
       else if !finished then modelDiff s!"status ok expected, got {status}"
       else
